@@ -195,6 +195,68 @@ def oracle(sc, res, rng_seed=0):
     return fails
 
 
+def analyzer_oracle(ctx, n_cases):
+    """differential validation (not proof): the SpectralAnalyzer front end returns densities that obey
+    Parseval like the algorithms it wraps (Fs taken from the series)"""
+    import nitime.timeseries as ts
+    from nitime.analysis import SpectralAnalyzer
+    rng = ctx.rng
+    done = 0
+    for i in range(n_cases):
+        n = rng.choice([64, 65, 96, 127, 128])
+        M = rng.choice([1, 2, 3])
+        cplx = rng.random() < 0.25
+        fs = rng.choice([1.0, 2.0, 250.0, 1000.0, 0.5])
+        x = S.gen_signal(rng, [M], n, cplx)
+        t = ts.TimeSeries(x, sampling_rate=fs)
+        Fs = float(t.sampling_rate)
+        power = [float(p) for p in S.frac_power(x)]
+        for attr in ("periodogram", "spectrum_multi_taper", "psd"):
+            if cplx and attr == "spectrum_multi_taper":
+                pass
+            try:
+                f, p = getattr(SpectralAnalyzer(t), attr)
+            except Exception as e:  # noqa
+                if not S.err_in_dpss(e):
+                    ctx.report_fail(Fail("C04/SpectralAnalyzer.%s/exception" % attr, "analyzer raised %r" % e, repr(e), "a spectrum",
+                                         {"entry_point": "nitime.analysis.SpectralAnalyzer." + attr, "n": n, "M": M, "cplx": cplx, "Fs": fs,
+                                          "data": [float(v).hex() for v in np.asarray(x).view(float).ravel()]}))
+                continue
+            done += 1
+            p = np.asarray(p).reshape(M, -1)
+            if attr == "periodogram":
+                nb, want = n, power
+            elif attr == "spectrum_multi_taper":
+                an = SpectralAnalyzer(t)
+                if an.BW is not None:
+                    continue
+                sc = {"est": "multi_taper_psd", "Fs": Fs.hex(), "NFFT": None, "sides": "default",
+                      "adaptive": bool(an.adaptive), "low_bias": bool(an.low_bias)}
+                if sc["adaptive"]:
+                    continue
+                S.set_data(sc, x)
+                r = S.run_scenario(sc)
+                if r["err"] is not None:
+                    continue
+                nb, want = n, [float(v) for v in mt_expected_power(sc, r)]
+            else:
+                nb = 64
+                want = []
+                for row in x:
+                    sc = {"est": "welch", "method": {"this_method": "welch", "NFFT": 64, "n_overlap": 32}}
+                    S.set_data(sc, row)
+                    want += welch_expected_power(sc, {"x": row})
+            got = p.real.sum(axis=-1) * Fs / nb
+            for ch in range(M):
+                if S.rel_err(got[ch], want[ch]) > REL:
+                    ctx.report_fail(Fail("C04/SpectralAnalyzer.%s/parseval" % attr,
+                                         "analyzer density does not integrate to the mean power", float(got[ch]), float(want[ch]),
+                                         {"entry_point": "nitime.analysis.SpectralAnalyzer." + attr, "n": n, "M": M, "cplx": cplx, "Fs": fs,
+                                          "data": [float(v).hex() for v in np.asarray(x).view(float).ravel()]}))
+                    break
+    ctx.extra["analyzer_differential_checks"] = done
+
+
 def validate_fft(rec):
     """numerical validation of the contract assumed of the library FFT on the recorded calls"""
     n_ok = n_bad = 0
@@ -226,10 +288,10 @@ def gen_all(ctx):
     rng = ctx.rng
     q = ctx.quick
     scs = corpus_scenarios("C04")
-    for _ in range(ctx.scale(60, 500)):
+    for _ in range(ctx.scale(60, 400)):
         scs.append(S.gen_scenario(rng, "periodogram", nmax=64 if q else 256, max_ch=rng.choice([1, 2, 3, 5])))
-    for _ in range(ctx.scale(24, 200)):
-        scs.append(S.gen_scenario(rng, "multi_taper_psd", nmax=24 if q else 96, max_ch=rng.choice([1, 2, 3, 4]) if q else 5))
+    for _ in range(ctx.scale(24, 150)):
+        scs.append(S.gen_scenario(rng, "multi_taper_psd", nmax=32 if q else 96, max_ch=rng.choice([1, 2, 3, 4]) if q else 5))
     for _ in range(ctx.scale(12, 100)):
         scs.append(S.gen_scenario(rng, "periodogram_csd", nmax=24 if q else 64, max_ch=4 if q else 5))
     for _ in range(ctx.scale(8, 40)):
@@ -257,6 +319,7 @@ def run(ctx):
             f.replay = {"entry_point": "nitime.algorithms.spectral." + ("get_spectra" if c.sc["est"] == "welch" else c.sc["est"]),
                         "model_disagrees": id(c) in bad, "case_index": i}
             ctx.report_fail(f, c)
+    analyzer_oracle(ctx, ctx.scale(6, 40))
     ctx.extra["model_impl_disagreements"] = len(bad)
     ctx.extra["fft_contract_validations"] = {"ok": nv_ok, "failed": nv_bad}
     ctx.extra["rule"] = ("seeded generator over estimator (periodogram, periodogram_csd, multi_taper_psd fixed/adaptive, Welch "
@@ -274,7 +337,9 @@ def run(ctx):
                      "arguments reaching mlab.csd and the assembly of its results)",
                      "adaptive weights: the iteration of utils.adaptive_weights is modelled in Model/Adaptive.v and used "
                      "for the refutation theorems; in K its returned weights are data",
-                     "unnormalised periodograms (normalize=False) are compared with the model but not integrated"])
+                     "unnormalised periodograms (normalize=False) are compared with the model but not integrated",
+                     "SpectralAnalyzer.periodogram / .spectrum_multi_taper / .psd: differential validation only (Parseval on "
+                     "the analyzer's output with Fs = the series' sampling rate), not part of the proof"])
 
 
 def replay(ctx, path):
